@@ -148,3 +148,41 @@ def failing_return_sets_flag(prop, name, ob, repo, work):
 def rule_panic_escapes(prop, name, ob, repo, work):
     return run_rule_text(repo, 'rule "a" begin if 1 { x = 2 } end',
                          'if err == nil { t.Fatalf("non-boolean condition must surface as an error: res=%v", res) }')
+
+
+POOL_RACE = '''
+func Test_Replay(t *testing.T) {
+	rules := `rule "a" salience 3 begin x = 1 end rule "b" salience 2 begin y = 2 end`
+	pool, err := engine.NewGenginePool(2, 4, 1, rules, map[string]interface{}{})
+	if err != nil {
+		t.Fatal(err)
+	}
+	var wg sync.WaitGroup
+	for i := 0; i < 8; i++ {
+		wg.Add(1)
+		go func(i int) {
+			defer wg.Done()
+			for k := 0; k < 200; k++ {
+				%s
+			}
+		}(i)
+	}
+	%s
+	wg.Wait()
+}'''
+
+
+@adapter(r"GenginePool\)\.\w+(\$\d+)?:race:|GenginePool\)\.getGengine:safe:index")
+def pool_race(prop, name, ob, repo, work):
+    """data race on pool bookkeeping: run requests (and management calls) concurrently under the race detector"""
+    req = 'pool.Execute(map[string]interface{}{"k": k}, true)'
+    mgmt = ""
+    if any(x in name for x in ("clear", "execModel", "ruleBuilder", "Kc", "rbSlice")) or "getGengine" not in name:
+        mgmt = '''for k := 0; k < 50; k++ {
+		_ = pool.UpdatePooledRules(rules)
+		_ = pool.SetExecModel(1 + k%4)
+		_ = pool.GetExecModel()
+		pool.ExecuteRulesWithSpecifiedEM("a", 1, "b", 2)
+	}'''
+    body = POOL_RACE % (req, mgmt)
+    return run_scenario(repo, body, "Test_Replay", imports=("sync",), race=True)
